@@ -98,6 +98,7 @@ impl BufferParser for Parser {
                     }
                 }
                 self.avt_state = AvtReadState::Chars;
+                buf.terminal_state.limit_caret_pos(buf, caret);
                 Ok(CallbackAction::NoUpdate)
             }
             AvtReadState::RepeatChars => match self.avatar_state {
@@ -134,6 +135,7 @@ impl BufferParser for Parser {
                 2 => {
                     caret.pos.x = self.avt_repeat_char as i32;
                     caret.pos.y = ch as i32;
+                    buf.terminal_state.limit_caret_pos(buf, caret);
 
                     self.avt_state = AvtReadState::Chars;
                     Ok(CallbackAction::NoUpdate)
